@@ -200,6 +200,26 @@ def seeded_scenarios(ctx, n):
                                 ackhi=rng.randrange(65536), acklo=rng.choice([0, 65535, rng.randrange(65536)]),
                                 n=rng.choice([0, 0, 1, 10]) if 'S' not in flags else 0, seed=j))
                 ops.append(dict(op='settle', ms=15))
+            # a passive open: the SYN (and copies of it that arrive back to back, before the first one has been processed), then the
+            # segment that completes the handshake AND carries data: it belongs to the connection the listener created
+            dstl, pp, iss = la or '10.0.0.1', 50000 + i % 1000, rng.randrange(1 << 32)
+            ops.append(dict(op='inject', kind='tcp', v=4, src='10.0.0.9', sport=pp, dst=dstl, dport=80, flags='S', seqhi=iss >> 16, seqlo=iss & 0xffff,
+                            ackhi=0, acklo=0, n=0, seed=0, dup=rng.choice([0, 1, 1, 3, 6])))
+            ops.append(dict(op='settle', ms=30))
+            nxt = (iss + 1) & 0xffffffff
+            # (data in the completing segment may be dropped by the receiver: the data segments start at the same sequence number
+            #  and are at least as long, as a retransmitting peer's would be)
+            n0 = rng.choice([0, 1, 10, 10])
+            ops.append(dict(op='inject', kind='tcp', v=4, src='10.0.0.9', sport=pp, dst=dstl, dport=80, flags='PA' if n0 else 'A', seqhi=nxt >> 16,
+                            seqlo=nxt & 0xffff, ackofport=80, n=n0, seed=40, win=30000))
+            ops.append(dict(op='settle', ms=300))
+            ops.append(dict(op='accept', s=0, **{'as': 9}))
+            for j in range(rng.choice([1, 2])):
+                nb = rng.choice([10, 100, 500])
+                ops.append(dict(op='inject', kind='tcp', v=4, src='10.0.0.9', sport=pp, dst=dstl, dport=80, flags=rng.choice(['A', 'PA']), seqhi=nxt >> 16,
+                                seqlo=nxt & 0xffff, ackofport=80, n=nb, seed=40 + j, win=30000))
+                ops.append(dict(op='settle', ms=300))
+                nxt = (nxt + nb) & 0xffffffff
         elif fam == 1:  # unassigned / removed / promiscuous destination
             ops += [dict(op='udp', s=0, v=4), dict(op='bind', s=0, addr='', port=5000)]
             seq = rng.sample(['plain', 'foreign', 'add', 'rm', 'promisc_on', 'promisc_off', 'net_on', 'net_off', 'net_on', 'net_off'], 5)
@@ -391,13 +411,30 @@ def run(ctx):
     nsa = nack = 0
     for sg in segs:
         for i, e in enumerate(sg):
-            if e.get('ev') == 'op' and e.get('op') == 'inject' and 'ackofport' in e:
+            if e.get('ev') == 'op' and e.get('op') == 'inject' and 'ackofport' in e and e.get('flags') == 'SA':
                 nsa += 1
                 nxt = [x for x in sg[i + 1:i + 4] if x.get('ev') == 'emit' and x.get('kind') == 'tcp']
                 nack += 1 if nxt and nxt[0].get('flags') == 'A' else 0
     ctx.extra['tcp_connection_synacks'] = dict(injected=nsa, handshake_completed=nack)
     if not rej and nack == 0:
         raise vlib.Inconclusive('vacuity: no injected SYN-ACK completed an active open (TCP connection family dead)')
+    # ... and of the passive opens: connections were accepted, and data sent to them afterwards was acknowledged by them
+    npas = nacc = ndack = ndup = 0
+    for sg in segs:
+        accepted = False
+        for i, e in enumerate(sg):
+            if e.get('ev') == 'op' and e.get('op') == 'inject' and e.get('flags') == 'S' and e.get('dup'):
+                ndup += 1
+            if e.get('ev') == 'op' and e.get('op') == 'accept':
+                npas += 1
+                accepted = e.get('err') == ''
+                nacc += 1 if accepted else 0
+            if accepted and e.get('ev') == 'op' and e.get('op') == 'inject' and 'ackofport' in e and e.get('flags') in ('A', 'PA') and e.get('n', 0) > 0:
+                nxt = [x for x in sg[i + 1:i + 3] if x.get('ev') == 'emit' and x.get('kind') == 'tcp']
+                ndack += 1 if nxt and nxt[0].get('flags') == 'A' else 0
+    ctx.extra['tcp_passive_opens'] = dict(accept_calls=npas, accepted=nacc, data_segments_acknowledged_by_the_connection=ndack, syn_bursts=ndup)
+    if not rej and (nacc == 0 or ndack == 0 or ndup == 0):
+        raise vlib.Inconclusive('vacuity: no passive open was accepted and acknowledged data afterwards (passive-open family dead)')
     # binding self-test: move a received datagram to another socket / drop the RST
     base = next((s for s in segs if any(e.get('op') == 'readall' and e.get('got') for e in s)), None)
     if base is None:
